@@ -1247,3 +1247,88 @@ pub fn run(seed: u64, cases: usize, out: &mut Sink) {
     drop(ctx);
     let _ = std::fs::remove_file(&path);
 }
+
+// ---------------------------------------------------------------------------------------------------------------
+// a whole-store scenario for an observation made while modelling `reset_branch_base_fresh` / `reset_leaf_base_fresh`:
+// when the first changed key of a commit lies in front of the first separator of the index (`Index::lookup` = `None`)
+// the updaters keep `base = None, cutoff = None` and every change of the commit is ingested without a base.
+
+/// commit 1 fills a few leaves, commit 2 deletes the `j` smallest keys (for some `j` exactly the first leaf: its
+/// separator 0 leaves the branch level), commit 3 writes a key in front of everything and rewrites the largest key:
+/// every key must read back the last value written.
+pub fn first_leaf_scenario(out: &mut Sink) {
+    use nomt::hasher::Blake3Hasher;
+    use nomt::{KeyReadWrite, Nomt, Options, SessionParams};
+    let key = |i: u16| -> Key {
+        let mut k = [0u8; 32];
+        k[0] = 0x10;
+        k[1..3].copy_from_slice(&i.to_be_bytes());
+        k
+    };
+    let val = |tag: u8, len: usize| -> Vec<u8> { vec![tag; len] };
+    for j in 1..=8u16 {
+        for vlen in [1000usize, 300] {
+            let dir = format!("/dev/shm/nomt-verif-branchupd-db-{}-{}-{}", std::process::id(), j, vlen);
+            let _ = std::fs::remove_dir_all(&dir);
+            let res = catch_unwind(AssertUnwindSafe(|| {
+                let mut o = Options::new();
+                o.path(&dir);
+                o.commit_concurrency(1);
+                o.hashtable_buckets(4096);
+                o.preallocate_ht(false);
+                let db = Nomt::<Blake3Hasher>::open(o).expect("open");
+                let mut model: BTreeMap<Key, Vec<u8>> = BTreeMap::new();
+                let commit = |db: &Nomt<Blake3Hasher>, ws: Vec<(Key, Option<Vec<u8>>)>| {
+                    let s = db.begin_session(SessionParams::default());
+                    let acts: Vec<(Key, KeyReadWrite)> = ws.into_iter().map(|(k, v)| (k, KeyReadWrite::Write(v))).collect();
+                    let fin = s.finish(acts).expect("finish");
+                    fin.commit(db).expect("commit");
+                };
+                let n = if vlen == 1000 { 14u16 } else { 40 };
+                let c1: Vec<(Key, Option<Vec<u8>>)> = (1..=n).map(|i| (key(i * 10), Some(val(1, vlen)))).collect();
+                for (k, v) in &c1 {
+                    model.insert(*k, v.clone().unwrap());
+                }
+                commit(&db, c1);
+                let c2: Vec<(Key, Option<Vec<u8>>)> = (1..=j).map(|i| (key(i * 10), None)).collect();
+                for (k, _) in &c2 {
+                    model.remove(k);
+                }
+                commit(&db, c2);
+                let c3 = vec![(key(1), Some(val(3, 20))), (key(n * 10), Some(val(4, 21)))];
+                for (k, v) in &c3 {
+                    model.insert(*k, v.clone().unwrap());
+                }
+                commit(&db, c3);
+                let mut bad = Vec::new();
+                for i in 0..=(n * 10 + 1) {
+                    let k = key(i);
+                    let got = db.read(k).expect("read");
+                    if got.as_deref() != model.get(&k).map(|v| &v[..]) {
+                        bad.push(i);
+                    }
+                }
+                bad
+            }));
+            let _ = std::fs::remove_dir_all(&dir);
+            let op = format!("firstleaf {j} {vlen}");
+            match res {
+                Err(_) => {
+                    out.line(op, "panic".into());
+                    out.fail(format!("C01 first-leaf scenario: the store panicked (delete the {j} smallest keys, values of {vlen} bytes)"));
+                }
+                Ok(bad) => {
+                    if bad.is_empty() {
+                        out.line(op, "ok".into());
+                    } else {
+                        out.line(op, format!("stale {:?}", bad));
+                        out.fail(format!(
+                            "C01 first-leaf scenario: after deleting the {j} smallest keys ({vlen}-byte values) and then writing a key in front of everything together with the largest key, keys {:?} do not read back the last value written",
+                            bad
+                        ));
+                    }
+                }
+            }
+        }
+    }
+}
